@@ -38,6 +38,12 @@ var propStandins = map[string][]Standin{
 		Bound:   "stability of a view over its lifetime (the copy-on-write discipline of every writer in the manager; only the enumeration kernel of a view is under contract): 80 (quick) / 600 (thorough) seeded histories of 12 / 16 manager calls out of AddTag (mark, tag, service with 6 definitions), mark add / mark delete, definition updates, imports of 4 more streams (up to 16), small imports of one new conversation in a capture of its own (up to 12; enough of them trigger merges that replace files a held view references), more data for an old small conversation alone in its capture, opening a view (at most 3 alive, a third of the histories start on an empty service), releasing a view; after every call a fresh view must still show every stream an earlier fresh view showed, with the same client endpoint (nothing reported processed disappears or changes identity), and every live view is asked again - all streams with byte counts, HasTag for every tag it knew when it was opened, and searches for and against each of these tags - and must answer exactly as it did when it was opened. Background jobs (tagging, merging) run as they come; their interleaving is not controlled",
 		Timeout: 10 * time.Minute,
 	}},
+	"C12": {{
+		Name: "kill-restart", Pkg: "internal/index/manager", TestFile: "crash_standin_test.go", TestName: "TestC12Standin", OutEnv: "C12_OUT",
+		EnvQuick: []string{"C12_HISTORIES=15", "C12_LEN=24"}, EnvThorough: []string{"C12_HISTORIES=150", "C12_LEN=30"},
+		Bound:   "restart after a kill (only the order of operations inside saveState and Writer.Finalize is under contract): 15 (quick) / 150 (thorough) seeded histories of 24 / 30 manager calls out of small imports (awaited until reported processed, or not awaited), AddTag / DelTag / definition updates, pauses, and kills; a kill copies the state, snapshot, index and capture directories from inside the service goroutine - i.e. between two handlers, while import, merge and tagging jobs keep writing - and may add to the copy a half-written index file (a prefix of a complete one without its magic) under a newer name and a half-written newer state file next to the complete one; a second service is started on the copy and must start within 30 s without an error, show every tag acknowledged before the kill with its definition and colour and no other tag, show every stream of every import that was reported processed before the kill under its old id and client endpoint, settle, and then decide every tag for exactly the streams its definition selects. Crash points inside a handler (between the write of the new state file and the removal of the old one, inside a release) are not generated; converter caches and snapshots are copied but no converter is installed and no capture is large enough for a snapshot",
+		Timeout: 10 * time.Minute,
+	}},
 	"C13": {{
 		Name: "refcount", Pkg: "internal/index/manager", TestFile: "refcount_standin_test.go", TestName: "TestC13Standin", OutEnv: "C13_OUT",
 		EnvQuick: []string{"C13_HISTORIES=12", "C13_LEN=30"}, EnvThorough: []string{"C13_HISTORIES=120", "C13_LEN=40"},
